@@ -68,6 +68,15 @@ Theorem C13_expression_sound : forall d hs e o,
   \/ (exists h, eround (tol_of d) h o /\ forall rho, defined rho e -> defined rho h -> eval rho h == eval rho e).
 Proof. exact check_expr_sound. Qed.
 
+(* the run's evidence says by which part of the checker an output was validated: the traced variants used for that
+   decide exactly what check_pre / check_expr decide, and a reported path names a mid condition of the cover *)
+Theorem C13_traced_pre_same : forall d hs conds out, fst (check_pre_tr d hs conds out) = check_pre d hs conds out.
+Proof. exact check_pre_tr_same. Qed.
+
+Theorem C13_traced_expr_same : forall d hs e o,
+  check_expr d hs e o = match check_expr_path d hs e o with Some _ => true | None => false end.
+Proof. exact check_expr_path_same. Qed.
+
 (* sanity of the structural rounding relation: with tolerance 0 it preserves the value *)
 Theorem C13_eround_zero : forall rho h o, eround 0 h o -> eval rho h == eval rho o.
 Proof. exact eround_zero_same. Qed.
@@ -75,9 +84,10 @@ Proof. exact eround_zero_same. Qed.
 (* THE GLUE AROUND SYMPY (model of extract_atom / _convert_internal_expression_to_pddl / convert_expr_to_pddl):
    whenever the printer returns for a sympy tree t - Add / Mul n-ary, integer powers, Float / Rational / Integer /
    Symbol atoms; anything else raises - there is an expression h with
-   - h has exactly the value of the tree (sums, products, powers; a Float / Rational atom counts with its reference
-     value [href]: the exact value when its rounding is integral, else the 15-digit decimal sympy's str() shows and
-     format() rounds; a symbol counts as the function text it is printed as),
+   - h has exactly the value of the tree (sums, products, powers; a Rational atom counts with its exact value - it is
+     printed from it since D21o; a Float atom counts with its reference value [href]: the exact value when its
+     rounding is integral, else the 15-digit decimal sympy's str() shows and format() rounds; a symbol counts as the
+     function text it is printed as),
    - what is printed is a structural rounding of h to d decimals (every constant within half a unit of the d-th
      decimal, terms whose constant factor rounds to zero dropped, a product with such a factor dropped as a whole) and
      uses only binary + * / (pe_expr succeeds); if nothing is left (None, printed "0") h itself vanishes up to rounding. *)
@@ -99,6 +109,12 @@ Proof. exact convert_text. Qed.
 (* every printed number is within half a unit of the d-th decimal of the atom's reference value *)
 Theorem C13_number_rounding : forall d v tv, Qabs (href d v tv - pnum_value (number_atom d v tv)) <= tol_of d.
 Proof. exact number_atom_close. Qed.
+
+(* a Rational atom p/q is printed from its exact value: within half a unit of the d-th decimal of p/q itself, however
+   many digits that takes (before D21o it went through a 15-digit Float: -250000000000000000000/399999 at 5 decimals
+   was printed as -625001562503906.00000) *)
+Theorem C13_rational_rounding : forall d v, Qabs (v - pnum_value (number_atom d v v)) <= tol_of d.
+Proof. exact rat_atom_close. Qed.
 
 (* the reference value of a Float atom (the decimal that str(Float) shows: 15 significant digits) is within 5e-15,
    relative, of the exact binary value, for 1e-400 <= |v| < 1e400 *)
@@ -126,6 +142,7 @@ Print Assumptions C13_norm_sound.
 Print Assumptions C13_glue.
 Print Assumptions C13_glue_text.
 Print Assumptions C13_number_rounding.
+Print Assumptions C13_rational_rounding.
 Print Assumptions C13_float_reference_close.
 Print Assumptions C13_naming_injective.
 Print Assumptions C13_naming_total.
@@ -137,3 +154,5 @@ Print Assumptions C13_omitted_condition_implied.
 Print Assumptions C13_expression_sound.
 Print Assumptions C13_omitted_only_if_implied.
 Print Assumptions C13_eround_zero.
+Print Assumptions C13_traced_pre_same.
+Print Assumptions C13_traced_expr_same.
